@@ -165,13 +165,10 @@ fn prefix_function(args: &std::collections::HashMap<String, Value>) -> Result<Va
 
     let length = args.get("length").and_then(|v| v.as_u64()).unwrap_or(10) as usize;
 
-    let prefix = if input.len() > length {
-        &input[..length]
-    } else {
-        &input
-    };
+    // Take characters, not bytes: slicing at a byte index panics inside a multi-byte character
+    let prefix: String = input.chars().take(length).collect();
 
-    Ok(Value::String(prefix.to_string()))
+    Ok(Value::String(prefix))
 }
 
 /// Add conditional prefix to string (only if string is not empty)
